@@ -256,6 +256,32 @@ v("b85-setter-register-in-else", ["C08", "C01", "C04"], "registration in the els
   (J, "            self.statepoint.reset(new_statepoint)\n\n        self._project._register(self.id, new_statepoint)", "            try:\n                self.statepoint.reset(new_statepoint)\n            except Exception:\n                raise\n            else:\n                self._project._register(self.id, new_statepoint)"))
 
 
+# ---- variants for the rules added after round 7
+v("b86-load-config-single-loop-project-last", ["C19", "C20"], "configuration files merged in one loop, project-local file last",
+  (CFG_, "    for fn in (USER_CONFIG_FN,):\n        if os.path.isfile(fn):\n            config.merge(_read_config_file(fn))\n\n    if os.path.isfile(_get_project_config_fn(path)):\n        config.merge(_read_config_file(_get_project_config_fn(path)))\n",
+         "    for fn in (USER_CONFIG_FN, _get_project_config_fn(path)):\n        if os.path.isfile(fn):\n            config.merge(_read_config_file(fn))\n"))
+v("b87-get-job-fspath", ["C19"], "get_job accepts path-like objects, still normalised with abspath",
+  (P, "        path = os.path.abspath(path)\n", "        path = os.path.abspath(os.fspath(path))\n"))
+v("b88-migration-lock-explicit-blocking", ["C20"], "the default (blocking) timeout spelled out",
+  (MIG, "        lock = FileLock(os.path.join(root_directory, FN_MIGRATION_LOCKFILE))", "        lock = FileLock(os.path.join(root_directory, FN_MIGRATION_LOCKFILE), timeout=-1)"))
+v("b89-convert-bool-table-constant", ["C16"], "boolean spellings moved to a module constant, look-up still lower-cases",
+  (IE, "    return {\"true\": True, \"1\": True, \"false\": False, \"0\": False}.get(\n        value.lower(), bool(value)\n    )", "    return _BOOL_LITERALS.get(value.lower(), bool(value))"),
+  (IE, "\n\ndef _convert_bool(value):", "\n\n_BOOL_LITERALS = {\"true\": True, \"1\": True, \"false\": False, \"0\": False}\n\n\ndef _convert_bool(value):"))
+v("b90-zip-relpath-local", ["C16"], "relative directory inside the archive bound to a local",
+  (IE, "                    arcname=os.path.join(dst, os.path.relpath(root, src), fn),", "                    arcname=os.path.join(dst, os.path.relpath(root, start=src), fn),"))
+v("b91-unique-check-normpath", ["C16", "C17"], "uniqueness check counts normalised paths (generated paths are normalised already)",
+  (IE, "    job_paths = Counter(path_function(job) for job in jobs)", "    job_paths = Counter(os.path.normpath(path_function(job)) for job in jobs)"))
+v("b92-parse-single-pattern-local", ["C07", "C06"], "regex pattern bound to a local",
+  (FPA, "        return key, {\"$regex\": value[1:-1]}", "        pattern = value[1:-1]\n        return key, {\"$regex\": pattern}"))
+v("b93-project-contains-local", ["C07", "C03", "C02"], "id bound to a local before the membership test",
+  (P, "        return self._contains_job_id(job.id)", "        job_id = job.id\n        return self._contains_job_id(job_id)"))
+v("b94-save-rename-plain-wrapper", ["C04", "C03", "C11"], "the directory rename goes through a plain wrapper that maps nothing",
+  (J, "                os.replace(job.path, new_workspace)", "                _rename_directory(job.path, new_workspace)"),
+  (J, "\n\ndef calc_id(statepoint):", "\n\ndef _rename_directory(src, dst):\n    os.replace(src, dst)\n\n\ndef calc_id(statepoint):"))
+v("b95-import-init-explicit-validate", ["C16"], "validating init spelled out",
+  (IE, "    else:\n        job.init()\n    return dst", "    else:\n        job.init(validate_statepoint=True)\n    return dst"))
+
+
 def main():
     os.makedirs(OUT, exist_ok=True)
     for f in os.listdir(OUT):
